@@ -19,6 +19,7 @@ import (
 	evmtypes "github.com/tharsis/ethermint/x/evm/types"
 
 	erc20contracts "github.com/teleport-network/teleport/syscontracts/erc20"
+	agentcontract "github.com/teleport-network/teleport/syscontracts/xibc_agent"
 	endpointcontract "github.com/teleport-network/teleport/syscontracts/xibc_endpoint"
 	packetcontract "github.com/teleport-network/teleport/syscontracts/xibc_packet"
 	aggregatetypes "github.com/teleport-network/teleport/x/aggregate/types"
@@ -34,6 +35,9 @@ import (
 var (
 	erc20ABI    = erc20contracts.ERC20MinterBurnerDecimalsContract.ABI
 	endpointABI = endpointcontract.EndpointContract.ABI
+	executeABI  = endpointcontract.ExecuteContract.ABI
+	agentABI    = agentcontract.AgentContract.ABI
+	agentAddr   = agentcontract.AgentContractAddress
 	packetABI   = packetcontract.PacketContract.ABI
 	endpointAddr = endpointcontract.EndpointContractAddress
 	packetAddr   = packetcontract.PacketContractAddress
@@ -82,6 +86,11 @@ type xchain struct {
 	lastBal  map[string]*big.Int
 	crashAt  int
 	crashIdx int
+	forwarder  common.Address
+	pendingAdv int
+	proposals  []*govInfo
+	registry   map[string]map[string]bool // relayer address -> chain names it is registered for
+	tssName    string
 }
 
 type world struct {
@@ -168,7 +177,7 @@ func newWorld(cfg map[string]int64, rec *kernel.Rec) (*world, error) {
 		if c.Halted != "" {
 			return nil, fmt.Errorf("genesis halted: %s", c.Halted)
 		}
-		xc := &xchain{Chain: c, idx: i, wrapped: map[string]*token{}, accepted: map[int]map[uint64]bool{}}
+		xc := &xchain{Chain: c, idx: i, wrapped: map[string]*token{}, accepted: map[int]map[uint64]bool{}, registry: map[string]map[string]bool{}}
 		xc.native = &token{Origin: i, IsNative: true}
 		w.chains = append(w.chains, xc)
 	}
@@ -254,6 +263,11 @@ func newWorld(cfg map[string]int64, rec *kernel.Rec) (*world, error) {
 				addrs = append(addrs, r.Acc.String())
 			}
 			contents = append(contents, clienttypes.NewRegisterRelayerProposal("reg", "relayer", r.Acc.String(), chains, addrs))
+			set := map[string]bool{}
+			for _, n := range chains {
+				set[n] = true
+			}
+			c.registry[r.Acc.String()] = set
 		}
 		for _, o := range w.chains {
 			if o.idx == c.idx {
